@@ -1,4 +1,5 @@
 import Passage.Proxy
+import Passage.Props.C19V4
 /-
   C15 (continued) — theorems about the PROXY header parser model: which source a header announces.
 -/
@@ -152,5 +153,35 @@ theorem v1_announces_source (C : Cfg) (ip4 ip6 : Bytes → Option Bytes) (a b sp
   unfold parseV1 parseV1Inner
   have hl : ¬ (pre ++ f1).length < 15 := by omega
   simp only [hl, if_false, hsw, Bool.not_true, Bool.false_eq_true, hunk, hproto, if_true, show (6 : Nat) + 5 = 11 from rfl, haddrs, d5, List.head?_cons]
+
+end Passage.Props.C15Proxy
+
+namespace Passage.Props.C15Proxy
+open Passage Passage.Proxy Passage.NetText
+
+/-- **v1 round trip, IPv4, no hypothesis about the address text**: the line a load balancer writes for
+    source `x` and destination `y` in canonical dotted decimal announces exactly `x`'s octets and the
+    source port — with `Ipv4Addr::from_str` modelled concretely (NetText) instead of recorded -/
+theorem v1_announces_source_v4 (C : Cfg) (ip6 : Bytes → Option Bytes) (x y : V4) (sp dp rest : Bytes) (p q : Nat)
+    (hsp : (32 : UInt8) ∉ sp) (hdp : (13 : UInt8) ∉ dp)
+    (hp : parseU16 sp = some p) (hq : parseU16 dp = some q) (hv1 : C.allowV1 = true) :
+    parse C parseV4Octets ip6
+        (kPROXY ++ 32 :: kTCP4 ++ showV4 x ++ 32 :: showV4 y ++ 32 :: sp ++ 32 :: dp ++ 13 :: 10 :: rest)
+      = .ok (some ⟨v4Octets x, p⟩)
+          (11 + (showV4 x).length + 1 + (showV4 y).length + 1 + sp.length + 1 + dp.length + 2) :=
+  v1_announces_source C parseV4Octets ip6 (showV4 x) (showV4 y) sp dp rest (v4Octets x) (v4Octets y) p q
+    (noSpace_showV4 x) (noSpace_showV4 y) hsp hdp
+    (by simp [parseV4Octets, C19V4.parse_show]) (by simp [parseV4Octets, C19V4.parse_show]) hp hq hv1
+
+/-- a v1 source field the parser accepts is the canonical text of the announced address: `010.0.0.1`,
+    ` 10.0.0.1` or `10.0.0.1.` never announce 10.0.0.1 -/
+theorem v1_source_text_canonical (t : Bytes) (o : Bytes) (h : parseV4Octets t = some o) :
+    ∃ x : V4, o = v4Octets x ∧ showV4 x = t := by
+  unfold parseV4Octets at h
+  cases hx : parseV4 t with
+  | none => simp [hx] at h
+  | some x =>
+    simp only [hx, Option.map_some, Option.some.injEq] at h
+    exact ⟨x, h.symm, C19V4.show_parse t x hx⟩
 
 end Passage.Props.C15Proxy
